@@ -51,6 +51,23 @@ struct OriginDisplacementFitsIn;
 
 template <typename FromRep, typename ToRep>
 struct IntermediateRep;
+
+// Whether a `Quantity<TargetUnit, TargetRep>` can be implicitly constructed from the sum of a
+// `Quantity<SourceUnit, SourceRep>` and the displacement between the two units' origins.
+//
+// Units of different dimension have no origin displacement; for them, the answer is simply "no"
+// (rather than a hard error, so that `std::is_convertible` etc. remain usable).
+template <typename TargetUnit,
+          typename TargetRep,
+          typename SourceUnit,
+          typename SourceRep,
+          bool SameDim = HasSameDimension<TargetUnit, SourceUnit>::value>
+struct DiffPlusOriginDisplacementConvertible : std::false_type {};
+template <typename TargetUnit, typename TargetRep, typename SourceUnit, typename SourceRep>
+struct DiffPlusOriginDisplacementConvertible<TargetUnit, TargetRep, SourceUnit, SourceRep, true>
+    : std::is_convertible<decltype(std::declval<Quantity<SourceUnit, SourceRep>>() +
+                                   origin_displacement(TargetUnit{}, SourceUnit{})),
+                          Quantity<TargetUnit, TargetRep>> {};
 }  // namespace detail
 
 // QuantityPoint implementation and API elaboration.
@@ -72,10 +89,7 @@ class QuantityPoint {
     //      OK : QuantityPoint<Celsius, int> -> QuantityPoint<Milli<Kelvins>, int>
     template <typename OtherUnit, typename OtherRep>
     static constexpr bool should_enable_implicit_construction_from() {
-        return std::is_convertible<
-            decltype(std::declval<typename QuantityPoint<OtherUnit, OtherRep>::Diff>() +
-                     origin_displacement(UnitT{}, OtherUnit{})),
-            QuantityPoint::Diff>::value;
+        return detail::DiffPlusOriginDisplacementConvertible<UnitT, RepT, OtherUnit, OtherRep>::value;
     }
 
     // This machinery exists to give us a conditionally explicit constructor, using SFINAE to select
